@@ -40,7 +40,7 @@ def eid(e):
         return -4
     if isinstance(e, BatchingError):
         return -5
-    if isinstance(e, RuntimeError):
+    if isinstance(e, RuntimeError) and not isinstance(e, RecursionError):
         return -9
     return {"Unexpected": [{"s": type(e).__name__}]}
 
@@ -412,7 +412,7 @@ OPTION_NAMES = ["DUMP_PRE_ERROR_STATE", "DUMP_EXCEPTIONS", "DUMP_SCHEDULE_TASK",
                 "KEEP_DEPENDENCIES"]
 
 
-def run_case(c):
+def run_one(c):
     from asynq import profiler
     opts = _debug.options
     saved = {k: getattr(opts, k) for k in OPTION_NAMES + ["MAX_TASK_STACK_SIZE", "SCHEDULER_STATE_DUMP_INTERVAL"]}
@@ -432,6 +432,8 @@ def run_case(c):
         opts.KEEP_DEPENDENCIES = bool(params.get("keep"))
         for k, v in params.get("options", {}).items():
             setattr(opts, k, v)
+        if params.get("options", {}).get("DUMP_SCHEDULER_STATE"):
+            opts.SCHEDULER_STATE_DUMP_INTERVAL = 0     # make the time-based dump actually happen
         if params.get("clock") is not None:
             # scripted clock for COLLECT_PERF_STATS: successive utime() calls advance by the listed deltas
             deltas = list(params["clock"])
@@ -465,6 +467,31 @@ def run_case(c):
         profiler.reset()
     oracle = [e["EvBefore"] for e in final_ev if "EvBefore" in e]
     return {"out": {"": [outs, final_ev]}, "oracle": oracle, "full": final_full}
+
+
+def run_case(c):
+    """default-options run; with c["variants"] (C20) also one run per option variant, each on a fresh scheduler"""
+    r = run_one(c)
+    if c.get("variants"):
+        vs = []
+        for v in c["variants"]:
+            c2 = dict(c)
+            p2 = dict(c.get("params", {}))
+            p2["options"] = v.get("options", {})
+            if v.get("clock") is not None:
+                p2["clock"] = v["clock"]
+            if "KEEP_DEPENDENCIES" in p2["options"]:
+                p2["keep"] = p2["options"]["KEEP_DEPENDENCIES"]
+            c2["params"] = p2
+            try:
+                o = run_one(c2)
+                vs.append({"out": o["out"], "oracle": o["oracle"]})
+            except _common.Hang:
+                raise
+            except BaseException as e:
+                vs.append({"escaped": type(e).__name__})
+        r["variants"] = vs
+    return r
 
 
 if __name__ == "__main__":
